@@ -252,13 +252,14 @@ def opDestroy (s : St) (sd : Side) (j : Nat) : St × Out :=
   if j ≥ (s.conn sd).n then (s, .bad) else
   match sd with
   | .P =>
-    if s.lock then ({ s with p := s.p.modify j fun i => { i with destroyed := true } }, .locked) else
+    -- the DELETE fails: `_obsolete` is only set after a successful DELETE
+    if s.lock then (s, .locked) else
     ({ s with db := upd s.db (s.p.insts j).key none,
               p := (s.p.modify j fun i => { i with destroyed := true }).evict (s.p.insts j).key }, .ok)
   | .T =>
     if s.obsolete then
-      ({ s with del := (s.t.insts j).key :: s.del,
-                t := s.t.modify j fun i => { i with destroyed := true } }, .assert)
+      -- `Transaction._SO_delete` logs the id, then `assertActive` fails; the instance is not marked
+      ({ s with del := (s.t.insts j).key :: s.del }, .assert)
     else
       ({ s with del := (s.t.insts j).key :: s.del, lock := true,
                 ws := (if (s.view .T (s.t.insts j).key).isSome then upd s.ws (s.t.insts j).key (some none) else s.ws),
